@@ -152,6 +152,20 @@ def run(run):
                         evs.append({"ev": "Polarity", "tid": tid, "expect": r, "out": modem.out_bits(out[i]) if not raised else [], "raised": raised})
                         meta.append((s, cname, nv))
                         run.case((s.name, cname, tuple(r), nv), nontrivial=any(r))
+                    # one LLR at a time (shape (1,)): a consumer must decide a single soft value like the same value inside a sequence
+                    if not opt.get("equal_mag") and not raised:
+                        for i in range(min(3, len(exp))):
+                            try:
+                                o1 = [modem.out_bits(f(llr[i, j].reshape(1).clone()).reshape(-1))[0] for j in range(llr.shape[1])]
+                                r1 = False
+                            except Exception:
+                                o1, r1 = [], True
+                            if r1:
+                                continue        # a consumer may reject a one-element input; a wrong decision counts
+                            tid += 1
+                            evs.append({"ev": "Polarity", "tid": tid, "expect": exp[i], "out": o1, "raised": False, "feed": "one LLR per call"})
+                            meta.append((s, cname, nv))
+                            run.case((s.name, cname, "single", tuple(exp[i]), nv), nontrivial=any(exp[i]))
         except Exception as ex:
             run.violate(s.component, "producer_raised", s.config(), {"scheme": s.name, "error": repr(ex)[:200]})
     # decoders as consumers (a representative set of producers: one per scheme family / bits-per-symbol)
